@@ -15,9 +15,13 @@ META = {
             "differential runs of the extracted model against the real src/acl/{Checklist,Tree,BoolOps,InnerNode,AllOf,AnyOf,Acl}.cc "
             "compiled from the working tree (UBSan) and driven with synthetic Acl::Node leaves following the same scripts.",
     "note": "Trusted: Coq kernel, extraction, harness/h_acltree.cc (scripted leaves and the loop that completes pending lookups), the "
-            "hand-written AcltreeModel.v validated against the code on the generated cases only. Theorems assume leaf ids that occur "
-            "once in the tree (shared leaves are exercised by the correspondence only). Not modelled: callerGone(), a null accessList, "
-            "ACLs that call markFinished() themselves (e.g. AUTH_REQUIRED), concurrent use of one tree's lastMatch_ by two checklists.",
+            "hand-written AcltreeModel.v validated against the code on the generated cases only. The theorems allow a leaf ACL object "
+            "to be shared between rules/groups only when it is synchronous (shared_leaves_sync; leaves that can start lookups must "
+            "occur once); shared leaves with real lookups and shared inner groups are exercised by the correspondence. Not modelled: "
+            "callerGone(), a null accessList, occupied_, ACLs that call markFinished() themselves (e.g. AUTH_REQUIRED challenges), "
+            "concurrent use of one tree's mutable lastMatch_ by two checklists. Observation (not part of C44): matchChild() resets "
+            "asyncLoopDepth_ on every call, so the 'async loop' limit only bounds goAsync() calls made from one match() invocation; "
+            "a leaf that goes asynchronous again after each resume is never stopped.",
     "technique": "Coq proof (structural induction over the expression tree with an explicit breadcrumb-path invariant; fuel induction for "
                  "the suspend/resume loop) + extracted-model differential correspondence",
 }
